@@ -5,6 +5,7 @@ import (
 	"go/token"
 	"go/types"
 	"sort"
+	"strconv"
 	"strings"
 
 	"golang.org/x/tools/go/ssa"
@@ -1672,8 +1673,18 @@ func ruleCSVFields(c *Ctx, r *Rep, tier string) {
 //	                 uses an index whose first value is the larger of the
 //	                 record's first tile and the old length.
 func ruleLinearKeep(c *Ctx, r *Rep, tier string) {
+	// Add extends; sort only permutes (sort.Sort over the list: zero entries – tiles
+	// no record reached – move to the front and every recorded offset to a tile at
+	// or after its own, which keeps each entry a lower bound). A sort that assigns
+	// entries itself – thirteenth-round seed C04-n filled "empty" tiles from their
+	// right-hand neighbour, and took a first record at virtual offset 0, a
+	// header-less tabix file, for an empty tile – is reported like an Add that does.
+	linearKeepIn(c, r, c.Func("internal", "(*Index).Add"))
+	linearKeepIn(c, r, c.Func("internal", "(*Index).sort"))
+}
+
+func linearKeepIn(c *Ctx, r *Rep, fn *ssa.Function) {
 	rule := "LINEAR-KEEP"
-	fn := c.Func("internal", "(*Index).Add")
 	ivF := c.Field("internal", "RefIndex", "Intervals")
 	name := c.FnName(fn)
 	isIvLoad := func(v ssa.Value) bool {
@@ -2621,4 +2632,290 @@ func ruleFailedCurrent(c *Ctx, r *Rep, tier string) {
 		r.Instance(rule, 1)
 		r.Fail(rule, "bgzf.(*Reader).nextBlock#waits", c.Pos(fn.Pos()), "no wait() whose error nextBlock returns: the rule's anchor moved (undecided)")
 	}
+}
+
+// ---- MERGE-ERR-ORIGIN ----------------------------------------------------------
+//
+// "… ends with io.EOF only after all inputs ended cleanly (an input's read error
+// is reported, not dropped)": once a Merger exists, the only errors it has to
+// tell are its inputs'. Decided for the methods of bam.Merger (the constructor
+// aside – it may refuse inputs): every error they return, and every value they
+// store into Merger.err or reader.err, is – through φs – nil, io.EOF, the error
+// result of a source's Read, one of those two fields read back, or the result of
+// another of these methods. An error of the Merger's own making (thirteenth-round
+// seed C18-m: a "source is not sorted" check that asks the less function, which
+// is not strict for unplaced records) ends a merge of well-sorted inputs early.
+func ruleMergeErrOrigin(c *Ctx, r *Rep, tier string) {
+	rule := "MERGE-ERR-ORIGIN"
+	mergerErr := c.Field("bam", "Merger", "err")
+	readerErr := c.Field("bam", "reader", "err")
+	srcRead := c.Func("bam", "(*Reader).Read")
+	var fns []*ssa.Function
+	inSet := map[*ssa.Function]bool{}
+	for _, fn := range c.FuncsIn("bam") {
+		if fn.Blocks == nil || fn.Signature.Recv() == nil {
+			continue
+		}
+		if strings.HasSuffix(fn.Signature.Recv().Type().String(), "bam.Merger") {
+			fns = append(fns, fn)
+			inSet[fn] = true
+		}
+	}
+	var okValue func(v ssa.Value, seen map[ssa.Value]bool) string
+	okValue = func(v ssa.Value, seen map[ssa.Value]bool) string {
+		if seen[v] {
+			return ""
+		}
+		seen[v] = true
+		switch x := v.(type) {
+		case *ssa.Const:
+			if x.IsNil() {
+				return ""
+			}
+		case *ssa.Phi:
+			for _, e := range x.Edges {
+				if w := okValue(e, seen); w != "" {
+					return w
+				}
+			}
+			return ""
+		case *ssa.UnOp:
+			if x.Op == token.MUL {
+				if isGlobalLoad(x, "io", "EOF") {
+					return ""
+				}
+				if f, _ := loadedField(x); f == mergerErr || f == readerErr {
+					return ""
+				}
+				// results spilled to a local
+				if al, ok := x.X.(*ssa.Alloc); ok {
+					for _, ref := range *al.Referrers() {
+						if st, ok := ref.(*ssa.Store); ok && st.Addr == al {
+							if w := okValue(st.Val, seen); w != "" {
+								return w
+							}
+						}
+					}
+					return ""
+				}
+				if g, ok := x.X.(*ssa.Global); ok {
+					return "the package's own error " + g.Name()
+				}
+			}
+		case *ssa.Extract:
+			if call, ok := x.Tuple.(*ssa.Call); ok {
+				g := staticCallee(&call.Call)
+				if g == srcRead || inSet[g] {
+					return ""
+				}
+				return "the result of " + calleeFullName(&call.Call)
+			}
+		case *ssa.Call:
+			g := staticCallee(&x.Call)
+			if inSet[g] {
+				return ""
+			}
+			return "the result of " + calleeFullName(&x.Call)
+		case *ssa.MakeInterface:
+			return "a value made here (" + symKey(x.X) + ")"
+		}
+		return symKey(v)
+	}
+	for _, fn := range fns {
+		fn := fn
+		n := 0
+		why := ""
+		allInstrs(fn, func(ins ssa.Instruction) {
+			switch x := ins.(type) {
+			case *ssa.Return:
+				for i, res := range x.Results {
+					if !isErrorTyped(res) {
+						continue
+					}
+					n++
+					if w := okValue(retValue(x, i), map[ssa.Value]bool{}); w != "" {
+						why = "returns " + w + " at " + c.Pos(x.Pos())
+					}
+				}
+			case *ssa.Store:
+				fa, ok := x.Addr.(*ssa.FieldAddr)
+				if !ok {
+					return
+				}
+				if f := fieldVarOfAddr(fa); f == mergerErr || f == readerErr {
+					n++
+					if w := okValue(x.Val, map[ssa.Value]bool{}); w != "" {
+						why = "records " + w + " at " + c.Pos(x.Pos())
+					}
+				}
+			}
+		})
+		if n == 0 {
+			continue
+		}
+		r.Instance(rule, 1)
+		if why != "" {
+			why = "the Merger " + why + ": an error that no input produced – inputs that are each sorted and read cleanly must merge to the end"
+		}
+		r.Check(why == "", rule, c.FnName(fn)+"#errors-from-inputs", c.Pos(fn.Pos()), fmt.Sprintf("all %d error values returned or recorded come from the inputs", n), why)
+	}
+}
+
+// ---- SEQ-ABSENT ----------------------------------------------------------------
+//
+// SEQ may be "*" – the sequence is not stored – whatever the CIGAR says; the
+// agreement of the CIGAR's query length with the sequence is defined for a
+// sequence that is there. Secondary alignments are written that way, and the
+// library's own BAM reader returns such records. A parser or formatter that
+// asks Cigar.IsValid(Seq.Length) for an absent sequence (length 0) refuses them
+// (thirteenth-round seed C06-n moved the check into a helper shared by
+// UnmarshalSAM and MarshalSAM and lost the guard on the way).
+//
+// Decided for every call of (Cigar).IsValid in package sam outside the exported
+// predicate that is its purpose: the call is dominated by an edge on which the
+// sequence is present – the not-equal edge of bytes.Equal(field, "*"), or the
+// non-zero edge of a test of Seq.Length – in its function, or at every call
+// site of that function.
+func ruleSeqAbsent(c *Ctx, r *Rep, tier string) {
+	rule := "SEQ-ABSENT"
+	isValid := c.Func("sam", "(Cigar).IsValid")
+	lenF := c.Field("sam", "Seq", "Length")
+	present := func(fn *ssa.Function, at *ssa.BasicBlock) bool {
+		for _, b := range fn.Blocks {
+			ifi := ifOf(b)
+			if ifi == nil || b.Succs[0] == b.Succs[1] {
+				continue
+			}
+			cond, neg := ifi.Cond, false
+			if u, ok := cond.(*ssa.UnOp); ok && u.Op == token.NOT {
+				cond, neg = u.X, true
+			}
+			edge := -1
+			switch x := cond.(type) {
+			case *ssa.Call:
+				if calleeFullName(&x.Call) == "bytes.Equal" {
+					star := false
+					for _, a := range x.Call.Args {
+						if s, ok := constByteSlice(a); ok && len(s) == 1 && s[0] == '*' {
+							star = true
+						}
+					}
+					if star {
+						edge = 1 // not equal: present
+						if neg {
+							edge = 0
+						}
+					}
+				}
+			case *ssa.BinOp:
+				f, _ := loadedField(stripConv(x.X))
+				k, isK := constInt(x.Y)
+				if f == lenF && isK && k == 0 {
+					switch x.Op {
+					case token.NEQ, token.GTR:
+						edge = 0
+					case token.EQL, token.LEQ:
+						edge = 1
+					}
+					if neg && edge >= 0 {
+						edge = 1 - edge
+					}
+				}
+			}
+			if edge >= 0 && dominatedByEdge(fn, b, edge, at) {
+				return true
+			}
+		}
+		return false
+	}
+	var guarded func(fn *ssa.Function, at *ssa.BasicBlock, depth int) bool
+	guarded = func(fn *ssa.Function, at *ssa.BasicBlock, depth int) bool {
+		if present(fn, at) {
+			return true
+		}
+		if depth > 2 {
+			return false
+		}
+		// every call site of fn
+		sites := 0
+		all := true
+		for _, g := range c.FuncsIn("sam") {
+			g := g
+			allInstrs(g, func(x ssa.Instruction) {
+				if cl, ok := x.(*ssa.Call); ok && staticCallee(&cl.Call) == fn {
+					sites++
+					if !guarded(g, cl.Block(), depth+1) {
+						all = false
+					}
+				}
+			})
+		}
+		return sites > 0 && all
+	}
+	k := 0
+	for _, fn := range c.FuncsIn("sam") {
+		if fn.Name() == "IsValidRecord" {
+			continue
+		}
+		fn := fn
+		allInstrs(fn, func(ins ssa.Instruction) {
+			call, ok := ins.(*ssa.Call)
+			if !ok || staticCallee(&call.Call) != isValid {
+				return
+			}
+			k++
+			r.Instance(rule, 1)
+			key := fmt.Sprintf("%s#cigar-check-needs-seq~%d", c.FnName(fn), k)
+			r.Check(guarded(fn, call.Block(), 0), rule, key, c.Pos(call.Pos()), "the CIGAR is compared with the sequence only where the sequence is present", "Cigar.IsValid(Seq.Length) is asked where the sequence may be absent (SEQ \"*\", length 0): a record with a CIGAR and no stored sequence – a secondary alignment, or any record the BAM reader returned without bases – is refused")
+		})
+	}
+	if k == 0 {
+		r.Instance(rule, 1)
+		r.Fail(rule, "sam#cigar-seq-check", "sam/record.go", "no call of Cigar.IsValid in package sam outside IsValidRecord: the rule's anchor moved (undecided)")
+	}
+}
+
+// constByteSlice: v is a []byte literal of constants ([]byte{'*'}) – go/ssa
+// builds it as a slice of a new array with constant stores, or a conversion
+// of a constant string.
+func constByteSlice(v ssa.Value) ([]byte, bool) {
+	switch x := v.(type) {
+	case *ssa.Convert:
+		if k, ok := x.X.(*ssa.Const); ok && k.Value != nil {
+			if s, err := strconv.Unquote(k.Value.ExactString()); err == nil {
+				return []byte(s), true
+			}
+		}
+	case *ssa.Slice:
+		al, ok := x.X.(*ssa.Alloc)
+		if !ok {
+			return nil, false
+		}
+		at, ok := al.Type().(*types.Pointer).Elem().Underlying().(*types.Array)
+		if !ok {
+			return nil, false
+		}
+		out := make([]byte, at.Len())
+		n := 0
+		for _, ref := range *al.Referrers() {
+			ia, ok := ref.(*ssa.IndexAddr)
+			if !ok {
+				continue
+			}
+			idx, ok := constInt(ia.Index)
+			if !ok || idx < 0 || idx >= at.Len() {
+				return nil, false
+			}
+			for _, r2 := range *ia.Referrers() {
+				if st, ok := r2.(*ssa.Store); ok {
+					if kv, ok := constInt(st.Val); ok {
+						out[idx] = byte(kv)
+						n++
+					}
+				}
+			}
+		}
+		return out, int64(n) == at.Len()
+	}
+	return nil, false
 }
